@@ -458,6 +458,10 @@ class Exec:
         if fn is not None:
             self.note_ignored(node, f'module-level function `{name}` has no contract: its body (line {fn.lineno}) is inlined')
             return Closure(fn, self)
+        if not self._known_global(name):
+            # not a local, not a parameter or local of an enclosing function, not defined at module level, not a builtin: CPython raises NameError here
+            self.oblige(st, f'line {getattr(node, "lineno", "?")}: name `{name}` is defined when read', False)
+            return None
         raise Unsupported(f'name `{name}`')
 
     def ev_Name(self, e, st):
